@@ -16,11 +16,11 @@ def run(ctx):
     ctx.run_shards(sh, timeout=7200)
     L = 4 if ctx.thorough else 3
     return ctx.finish(
-        rule=("operations {construct(type, extents), write (fresh unique id, through a fresh view), copy-construct, move-construct, copy-assign, "
+        rule=("operations {construct(type, extents), default-construct (row-major types; default-initialised in memory holding other bytes, then moved into the slot), write (fresh unique id, through a fresh view), copy-construct, move-construct, copy-assign, "
               "move-assign (both incl. self-assignment), convert-copy, convert-move (between the three 2-D storage orders), dump+load, two fields built one after the other from one NAMED copy of the source's storage (second kept), destroy} over "
               "slots holding strided / morton / hilbert 2-D float3 fields (three components over two coordinates), affine<nearest_neighbour<strided>> (wrapper layers' implicit special "
               "members) and a 1-D double field.  EXHAUSTIVE: every enabled history of length <= %d over 2 slots, 2 types, 3 extent vectors (2x3, 5x2, and 3x0: a field with no cells) "
-              "(38-letter concrete alphabet, four type pairs), each replayed from an empty pool; SEEDED RANDOM: histories of 200 operations on "
+              "(40-letter concrete alphabet, four type pairs), each replayed from an empty pool; SEEDED RANDOM: histories of 200 operations on "
               "4 slots over all five types.  After EVERY operation every live field is compared with an ND-array model at every cell, through a "
               "fresh view and through the long-lived view made when it last acquired storage; moved-from slots are dead (may only be destroyed "
               "or assigned to).  Monitors: ASan (use-after-free, double free, overflow), LeakSanitizer (recoverable check per batch and at exit), "
@@ -28,4 +28,4 @@ def run(ctx):
               "hash of the operation sequence") % L,
         assumptions=["self-assignment (copy and move) must leave the field unchanged, as the property lists it among the operations of a history",
                      "moved-from fields are never viewed"],
-        exhaustive=True, extra_coverage={"exhaustive_scope": "all enabled histories of length <= %d over the 38-letter alphabet for four type pairs" % L})
+        exhaustive=True, extra_coverage={"exhaustive_scope": "all enabled histories of length <= %d over the 40-letter alphabet for four type pairs" % L})
